@@ -1,5 +1,7 @@
 import Driver.Core
 import Driver.Pure
+import Driver.Proto
+import Driver.Sync
 /-
 One line per handler object. The first handler that understands a line answers it.
 -/
@@ -7,7 +9,9 @@ namespace ZV.Driver
 
 def registry : List Obj := [
   pureObj purePow,
-  pureObj pureRpc
+  pureObj pureRpc,
+  pureObj pureProto,
+  mkObj ([] : SyncSt) syncStep
 ]
 
 end ZV.Driver
